@@ -81,52 +81,63 @@ def storeOp (op : String) (args : List String) : Option String :=
 
 /-! ### histories: every result is kept as an object (`Heap`), `h.read` shows its current content -/
 
+/-- result line of an allocating step: the handle, optional verdict, current content of the new object -/
+def allocLine (h' : Heap) (r : Nat) (verdict : String) : String :=
+  toString r ++ " " ++ verdict ++ bitsToString ((h'.read r).getD [])
+
+/-- (the heap is threaded linearly — no reference to the old heap survives a step — so that the
+compiled `Array` is updated in place) -/
 def histStep (h : Heap) (op : String) (args : List String) : Heap × String :=
-  let bad := (h, "ERR bad-op " ++ op)
   match op, args with
   | "h.reset", [] => (Heap.empty, "ok")
   | "h.gen", [c, m] =>
     match codeByName c, bitsOfString m with
     | some C, some m =>
       if m.length != C.k then (h, "ERR assert") else
+      let r := h.size
       let h' := (HOp.gen C m).run h
-      (h', toString h.size ++ " " ++ bitsToString ((h'.read h.size).getD []))
-    | _, _ => bad
+      let out := allocLine h' r ""
+      (h', out)
+    | _, _ => (h, "ERR bad-op " ++ op)
   | "h.check", [c, w] =>
     match codeByName c, bitsOfString w with
     | some C, some w =>
       if w.length != C.n then (h, "ERR assert") else
       ((HOp.check C w).run h, b01 (C.check w))
-    | _, _ => bad
+    | _, _ => (h, "ERR bad-op " ++ op)
   | "h.cac", [c, w] =>
     match codeByName c, bitsOfString w with
     | some C, some w =>
       if w.length != C.n then (h, "ERR assert") else
+      let r := h.size
       let h' := (HOp.cac C w).run h
-      (h', toString h.size ++ " " ++ b01 (C.checkAndCorrect w).1 ++ " " ++ bitsToString ((h'.read h.size).getD []))
-    | _, _ => bad
+      let out := allocLine h' r (b01 (C.checkAndCorrect w).1 ++ " ")
+      (h', out)
+    | _, _ => (h, "ERR bad-op " ++ op)
   | "h.correct", [c, w] =>
     match codeByName c, bitsOfString w with
     | some C, some w =>
       if w.length != C.n then (h, "ERR assert") else
+      let r := h.size
       let h' := (HOp.correct C w).run h
-      (h', toString h.size ++ " " ++ bitsToString ((h'.read h.size).getD []))
-    | _, _ => bad
+      let out := allocLine h' r ""
+      (h', out)
+    | _, _ => (h, "ERR bad-op " ++ op)
   | "h.overwrite", [r, v] =>
     match r.toNat?, bitsOfString v with
     | some r, some v =>
       if r < h.size then ((HOp.overwrite r v).run h, "ok") else (h, "ERR ref")
-    | _, _ => bad
+    | _, _ => (h, "ERR bad-op " ++ op)
   | "h.read", [r] =>
     match r.toNat? with
     | some r =>
       match h.read r with
       | some v => (h, bitsToString v)
       | none => (h, "ERR ref")
-    | none => bad
+    | none => (h, "ERR bad-op " ++ op)
   | _, _ =>
     match [codesOp, storeOp].findSome? (fun f => f op args) with
     | some out => (h, out)
-    | none => bad
+    | none => (h, "ERR bad-op " ++ op)
 
 end Dmr.Driver
